@@ -40,7 +40,15 @@ RULE = ("generated type definitions (1-4 declared fields, serializers from a poo
         ".write(): the copy is serialized and reported exactly like the original. Part 'startup': the same generated cases in processes that "
         "have never added a destination - the typed call (after 1-4 plain messages) is made BEFORE the first add_destinations, the "
         "destination is added afterwards and the replayed start-up buffer is judged by the same oracle (counted only when the plain "
-        "messages logged just before were replayed too)")
+        "messages logged just before were replayed too). "
+        "In 60% of the success-end / failure-end cases the success fields are supplied by 2-4 add_success_fields / addSuccessFields calls with "
+        "overlapping keys and different values (progress reports, a default that is overridden): the success message carries, for every "
+        "declared field, the serializer applied exactly once to the value supplied LAST for that key (undeclared keys: the last value "
+        "untouched), every serializer called exactly once for that message, every dict handed to one of the calls unchanged. "
+        "The serializer pool holds functions whose output is exactly None for a logged value that is not None (a lookup table's .get, "
+        "getattr(v, 'name', None), a blanking serializer, v or None, Field.for_value(key, None)) and ones with the other falsy outputs "
+        "0, '', [], False: the delivered value is the serializer's output (JSON null), never the logged value, for start, success and "
+        "stand-alone messages and dicts written with a serializer (failure ends: none of these success fields appears, no serializer runs)")
 ASSUMPTIONS = ["Logger.write with an explicit serializer uses MessageType._serializer (the object the library itself passes)",
                "serializers raise Exception subclasses"]
 BATCH = 250
@@ -55,8 +63,22 @@ SERS = {
     "tofloat": lambda v: float(v) if (type(v) is int and abs(v) < 2**53) else [v],
     "tobool": lambda v: bool(v) if type(v) is int and v in (0, 1) else [v],
     "toint": lambda v: int(v) if type(v) is bool else [v],
+    # outputs that are None (JSON null) for a logged value that is not None, and the other falsy outputs 0, "", [], False:
+    # the output is what must be delivered, never the logged value
+    "lookup": lambda v: _REGIONS.get(v if isinstance(v, (str, int, float)) else repr(v)),  # a lookup table's .get: None for unknown keys
+    "getname": lambda v: getattr(v, "name", None),  # lambda user: getattr(user, "name", None)
+    "blank": lambda v: None,  # a serializer that blanks a secret
+    "ornone": lambda v: v or None,  # empty values normalised to null
+    "count": lambda v: len(v) if isinstance(v, (str, list, dict)) else 0,
+    "truthy": lambda v: bool(v),
+    "text": lambda v: v if isinstance(v, str) else "",
+    "items": lambda v: list(v) if isinstance(v, (list, dict)) else [],
 }
-NON_IDEMPOTENT = {"wrap", "pair", "repr", "str", "tofloat", "tobool", "toint"}
+_REGIONS = {"eu": "Europe", "us": "America", "": "unset", 0: "nowhere", 7: "seven"}
+LOOKUP_VALUES = ["eu", "us", "", 0, 7, "ap-7", "mars", 5, True, False, 0.0, 2.5]
+NON_IDEMPOTENT = {"wrap", "pair", "repr", "str", "tofloat", "tobool", "toint", "lookup", "count"}
+# constants of Field.for_value declarations: the constant is the serializer's output whatever was logged (None and the other falsy ones included)
+FOR_VALUE_CONSTS = ["text", "text", None, None, 0, "", [], False]
 KINDS = ["msg_nocontext", "msg_in_action", "action_start", "action_success", "action_failure", "as_task_start", "write_serializer",
          "write_plain", "msg_call_write", "msg_write_action"]
 
@@ -135,6 +157,7 @@ def make_template(rng, name, nf=None):
     sers = {k: rng.choice(list(SERS)) for k in keys}
     decl = {k: rng.choice(["custom", "custom", "subclass", "for_types", "factory", "for_value"]) for k in keys}
     state = {"calls": {k: 0 for k in keys}, "failing": set(), "exc_class": excs.SerFault}
+    consts = {k: ("const-%s" % k if c == "text" else copy.deepcopy(c)) for k, c in ((k, rng.choice(FOR_VALUE_CONSTS)) for k in keys)}
 
     def make_ser(k):
         f = SERS[sers[k]]
@@ -160,8 +183,8 @@ def make_template(rng, name, nf=None):
         elif decl[k] == "factory":
             fields.extend(fields_factory(**{k: rng.choice([str, int, list, dict, None])}))
         else:
-            fields.append(Field.for_value(k, "const-%s" % k, ""))
-    tpl = {"name": name, "keys": keys, "sers": sers, "decl": decl, "fields": fields, "state": state, "types": {}}
+            fields.append(Field.for_value(k, consts[k], ""))
+    tpl = {"name": name, "keys": keys, "sers": sers, "decl": decl, "fields": fields, "state": state, "types": {}, "consts": consts}
     return tpl
 
 
@@ -212,6 +235,52 @@ def via_copy(msg, via, extra):
     return msg
 
 
+def other_value(rng, ser, final):
+    """A value for an earlier add_success_fields call that differs from the one supplied last."""
+    for _ in range(6):
+        v = (rng.choice([0, 1, True, False, 7, -3]) if ser in ("tofloat", "tobool", "toint") else
+             rng.choice(LOOKUP_VALUES) if ser == "lookup" else gen.gen_value(rng, rng.choice([0, 1, 1, 2])))
+        if not json_equal(v, final):
+            return v
+    return ["superseded", final]
+
+
+def split_success_calls(rng, supplied, sers):
+    """`supplied` (key -> the value the application logs last) spread over 2-4 add_success_fields calls: every key gets its last value
+    in one of the calls and, in some of the calls before that one, a different value. Returns ([(fields, spelling)], keys supplied
+    more than once)."""
+    n = rng.randint(2, 4)
+    dicts = [{} for _ in range(n)]
+    last_at = {k: (n - 1 if rng.random() < 0.5 else rng.randrange(n)) for k in supplied}
+    if supplied and not any(last_at.values()):
+        last_at[rng.choice(sorted(supplied))] = n - 1
+    resupplied = set()
+    for k, v in supplied.items():
+        dicts[last_at[k]][k] = v
+        earlier = [j for j in range(last_at[k]) if rng.random() < 0.6]
+        if last_at[k] and not earlier and rng.random() < 0.5:
+            earlier = [0]
+        for j in earlier:
+            dicts[j][k] = other_value(rng, sers.get(k), v)
+            resupplied.add(k)
+    return [(d, rng.choice(["add_success_fields", "addSuccessFields"])) for d in dicts], resupplied
+
+
+def supply_success_fields(action, supplied, success_calls):
+    if success_calls is None:
+        action.add_success_fields(**supplied)
+    else:
+        for d, spelling in success_calls:
+            getattr(action, spelling)(**d)
+
+
+def resupplied_note(k, success_calls, resupplied):
+    if k not in resupplied:
+        return ""
+    return " (supplied by %d of the action's %d add_success_fields calls; the value supplied last is the logged one)" % (
+        sum(1 for d, _ in success_calls if k in d), len(success_calls))
+
+
 def one(seed, i, has_globals, gfields, res, templates=(), late_add=False):
     """late_add: the case runs in a process that has never added a destination; the typed call is made first (start-up buffering),
     the recording destination is added afterwards and receives the buffered messages."""
@@ -250,6 +319,7 @@ def one(seed, i, has_globals, gfields, res, templates=(), late_add=False):
             if tpl["shared_raised"] > 1:
                 res["counters"]["same_exception_object_raised_again"] = res["counters"].get("same_exception_object_raised_again", 0) + 1
     values = {k: (rng.choice([0, 1, True, False, 7, -3]) if (sers[k] in ("tofloat", "tobool", "toint") and rng.random() < 0.7)
+                  else rng.choice(LOOKUP_VALUES) if (sers[k] == "lookup" and rng.random() < 0.7)
                   else gen.gen_value(rng, rng.choice([0, 1, 2]))) for k in keys}
     explicit_action = False
     extra = {}
@@ -265,6 +335,13 @@ def one(seed, i, has_globals, gfields, res, templates=(), late_add=False):
     if kind == "action_failure":
         will_fail = False  # failure ends carry only eliot's own exception/reason fields
     snap = snapshot(supplied)
+    # Success fields supplied by several add_success_fields / addSuccessFields calls on one action (progress reports, a default
+    # result that the caller overrides): what is logged for a key is the value supplied LAST (`supplied` holds exactly those).
+    success_calls, resupplied = None, set()
+    mrng = random.Random("%s:C13:multi:%d" % (seed, i))
+    if kind in ("action_success", "action_failure") and mrng.random() < 0.6:
+        success_calls, resupplied = split_success_calls(mrng, supplied, sers)
+    call_snaps = [snapshot(d) for d, _ in success_calls or []]
     tape = Tape()
     rec = Recorder(tape, "rec")
     nprelude = 0
@@ -281,7 +358,7 @@ def one(seed, i, has_globals, gfields, res, templates=(), late_add=False):
     at = "c13:a:" + tpl["name"]
     raised = None
     expected = {k: (SERS[sers[k]](v) if decl[k] == "custom" else ["sub", SERS[sers[k]](v)] if decl[k] == "subclass" else
-                    ("const-%s" % k if decl[k] == "for_value" else v)) for k, v in values.items()}
+                    (copy.deepcopy(tpl["consts"][k]) if decl[k] == "for_value" else v)) for k, v in values.items()}
     before_len = [0]
     try:
         if kind == "msg_nocontext":
@@ -326,7 +403,7 @@ def one(seed, i, has_globals, gfields, res, templates=(), late_add=False):
             A = tpl_type(tpl, "action_success")
             with start_action(action_type="outer") as outer:
                 with A() as a:
-                    a.add_success_fields(**supplied)
+                    supply_success_fields(a, supplied, success_calls)
                     before_len[0] = len(tape.entries)
             ctx = outer
             target = lambda m: m.get("action_type") == at and m.get("action_status") == "succeeded"
@@ -335,7 +412,7 @@ def one(seed, i, has_globals, gfields, res, templates=(), late_add=False):
             with start_action(action_type="outer") as outer:
                 try:
                     with A() as a:
-                        a.add_success_fields(**supplied)
+                        supply_success_fields(a, supplied, success_calls)
                         before_len[0] = len(tape.entries)
                         raise excs.UserError("planned")
                 except excs.UserError:
@@ -374,6 +451,9 @@ def one(seed, i, has_globals, gfields, res, templates=(), late_add=False):
 
     if not unchanged(supplied, snap):
         problems.append("caller-held data was modified by the %s call (now %r)" % (kind, sorted(supplied)))
+    for (d, _), sn in zip(success_calls or [], call_snaps):
+        if not unchanged(d, sn):
+            problems.append("fields handed to one of %d add_success_fields calls were modified (now %r)" % (len(success_calls), d))
     msgs = tape.msgs("rec")
     hits = [m for m in msgs if target(m)]
     tbs = [m for m in msgs if m.get("message_type") == "eliot:traceback"]
@@ -390,10 +470,13 @@ def one(seed, i, has_globals, gfields, res, templates=(), late_add=False):
                     if k not in m:
                         problems.append("%s: declared field %r missing from the delivered message" % (kind, k))
                     elif not json_equal(m[k], expected[k]):
-                        problems.append("%s: field %r delivered as %r, serializer(%s) of %r is %r" % (kind, k, m[k], sers[k], values[k], expected[k]))
+                        problems.append("%s: field %r%s%s delivered as %r, serializer(%s) of %r is %r" % (
+                            kind, k, resupplied_note(k, success_calls, resupplied),
+                            " (the serializer returns None for the logged value: JSON null is what must be delivered)" if expected[k] is None else "",
+                            m[k], sers[k] if decl[k] in ("custom", "subclass") else decl[k], values[k], expected[k]))
                 for k, v in extra.items():
                     if k not in m or not json_equal(m[k], v):
-                        problems.append("%s: undeclared field %r delivered as %r, logged %r" % (kind, k, m.get(k), v))
+                        problems.append("%s: undeclared field %r%s delivered as %r, logged %r" % (kind, k, resupplied_note(k, success_calls, resupplied), m.get(k), v))
                 want_calls = 0 if kind == "write_plain" else 1
                 for k in keys:
                     if decl[k] not in ("custom", "subclass"):
@@ -466,6 +549,22 @@ def one(seed, i, has_globals, gfields, res, templates=(), late_add=False):
     d[kind + ":" + mode] = d.get(kind + ":" + mode, 0) + 1
     c["serializer_calls_counted"] = c.get("serializer_calls_counted", 0) + sum(calls.values())
     c["caller_snapshots_compared"] = c.get("caller_snapshots_compared", 0) + 1
+    if success_calls is not None and resupplied:
+        # reach: actions whose success fields were supplied repeatedly with overlapping keys and different values
+        c["actions_with_resupplied_success_fields"] = c.get("actions_with_resupplied_success_fields", 0) + 1
+        if kind == "action_success" and not will_fail and len(hits) == 1:
+            c["resupplied_success_fields_judged"] = c.get("resupplied_success_fields_judged", 0) + len(resupplied)
+            c["resupplied_declared_success_fields_judged"] = c.get("resupplied_declared_success_fields_judged", 0) + len(resupplied & set(keys))
+    if not will_fail and len(hits) == 1 and kind != "write_plain":
+        # reach: declared fields whose serializer's output is None / another falsy value for a logged value that is something else
+        group = "failure_end" if kind == "action_failure" else "start" if kind in ("action_start", "as_task_start") else \
+            "success" if kind == "action_success" else "standalone"
+        for k in keys:
+            if k in supplied and expected[k] is None and values[k] is not None:
+                dn = c.setdefault("none_outputs", {})
+                dn[group] = dn.get(group, 0) + 1
+            elif k in supplied and kind != "action_failure" and type(expected[k]) in (int, str, list, bool) and not expected[k] and not json_equal(expected[k], values[k]):
+                c["other_falsy_outputs_judged"] = c.get("other_falsy_outputs_judged", 0) + 1
     if copied:
         c["copied_typed_messages_written"] = c.get("copied_typed_messages_written", 0) + 1
         if will_fail:
@@ -480,7 +579,8 @@ def one(seed, i, has_globals, gfields, res, templates=(), late_add=False):
                 c["startup_failures_before_first_add"] = c.get("startup_failures_before_first_add", 0) + 1
     if failing or missing or any(sers[k] in NON_IDEMPOTENT for k in keys):
         res["nontrivial"].append(h([kind, sorted(sers.items()), sorted(decl.items()), sorted(failing), missing, has_globals] +
-                                   ([via] if copied else []) + (["startup"] if late_add else [])))
+                                   ([via] if copied else []) + (["startup"] if late_add else []) +
+                                   (["resupplied", len(success_calls), sorted(resupplied)] if resupplied else [])))
     if res.get("sample") is None and will_fail:
         res["sample"] = {"kind": kind, "serializers": sers, "failing": sorted(failing), "missing": missing, "values": values,
                          "tape": [{k: v for k, v in m.items() if k not in ("timestamp", "traceback")} for m in msgs]}
@@ -488,6 +588,7 @@ def one(seed, i, has_globals, gfields, res, templates=(), late_add=False):
         res["violations"].append({"msg": problems[0], "mech": None,
                                   "detail": {"case": i, "kind": kind, "mode": mode, "serializers": sers, "failing": sorted(failing), "missing": missing,
                                              "values": values, "problems": problems[:8], "message_copied_by": via if copied else None,
+                                             "add_success_fields_calls": [[sp, d] for d, sp in success_calls] if success_calls is not None else None,
                                              "logged_before_first_add_destinations": bool(late_add)}})
 
 
@@ -742,4 +843,12 @@ def finalize(agg, tier):
         return "too few typed Message objects were copied (copy.copy / copy.deepcopy) before being written"
     if agg["counters"].get("startup_failures_before_first_add", 0) < 20:
         return "too few serialization failures happened before the first add_destinations of a process"
+    if agg["counters"].get("resupplied_declared_success_fields_judged", 0) < 100 or agg["counters"].get("actions_with_resupplied_success_fields", 0) < 200:
+        return "too few success messages of actions whose declared success fields were supplied repeatedly (overlapping add_success_fields calls) were judged"
+    nones = agg["counters"].get("none_outputs", {})
+    for group in ("start", "success", "standalone", "failure_end"):
+        if nones.get(group, 0) < 50:
+            return "too few %s messages with a declared field whose serializer returns None for a value that is not None" % group
+    if agg["counters"].get("other_falsy_outputs_judged", 0) < 100:
+        return "too few declared fields whose serializer returns 0, '', [] or False for a different logged value were judged"
     return None
